@@ -1,13 +1,13 @@
 #!/bin/sh
 # usage: build_oracle.sh <id>   — extracts oracle/<id>/extract.v and builds build/oracle_<id>
 set -e
-ROOT="$(cd "$(dirname "$0")/.." && pwd)"
+ROOT="$(cd "$(dirname "$0")/.." && pwd)"; BUILD="${VERIF_BUILD:-$ROOT/build}"
 id="$1"
 d="$ROOT/oracle/$id"
-mkdir -p "$d/gen" "$ROOT/build"
+mkdir -p "$d/gen" "$BUILD"
 cd "$d/gen"
 cp ../extract.v extract.v
 coqc -Q "$ROOT/coq" LLRP extract.v >/dev/null
 cp ../main.ml main.ml
-ocamlfind ocamlopt -O3 -w -a -package str -linkpkg model.mli model.ml main.ml -o "$ROOT/build/oracle_$id" 2>/dev/null || \
-ocamlfind ocamlopt -w -a -package str -linkpkg model.mli model.ml main.ml -o "$ROOT/build/oracle_$id"
+ocamlfind ocamlopt -O3 -w -a -package str -linkpkg model.mli model.ml main.ml -o "$BUILD/oracle_$id" 2>/dev/null || \
+ocamlfind ocamlopt -w -a -package str -linkpkg model.mli model.ml main.ml -o "$BUILD/oracle_$id"
